@@ -59,6 +59,13 @@ PROPS = {
                 explanation="event-match on requests: pulls, end detections and callable invocations occur in the reference's order between any two yields"),
     "C06": dict(level="proof", canaries=[(CANARY, "canary:filter-yields-before-test")], trusted_base=TB_COMMON,
                 explanation="a fault answered at every pull/call/op: same events up to the fault, the very same exception object propagates"),
+    "C07": dict(level="proof", canaries=[(CANARY, "canary:filter-yields-before-test")],
+                trusted_base=TB_COMMON + ["specification BorrowSpec (contracts/refs/ref_asynctools.py) written from the property", "athrow/asend through the handle are forwarded by design and not part of the property's operation list",
+                                          "composition with tools: every tool only pulls from and finally closes its inputs (their C04/C01 contracts); one closing tool (enumerate) is interpreted for real"],
+                explanation="class invariant + frame condition of _BorrowedAsyncIterator under arbitrary histories of {next(B), next(U), close(B), close(iter(B)), tool(B), re-borrow, next/close(B2)}: same items as the specification, the underlying iterator is never closed (close counter stays 0 after every operation), a closed handle pulls nothing"),
+    "C08": dict(level="proof", canaries=[(CANARY, "canary:filter-yields-before-test")],
+                trusted_base=TB_COMMON + ["specification ScopeSpec/ScopedSpec (contracts/refs/ref_asynctools.py) written from the property", "nesting explored to depth 2 (an inner scope's iterator is the outer handle, whose aclose is a no-op: deeper nesting repeats the same step)"],
+                explanation="histories inside the block (next, close, closing tool, nested scope enter/exit) and both exit kinds (normal / BaseException as for cancellation): the underlying iterator's close counter is 0 after every operation inside the block, exactly 1 after leaving the outermost scope, and the handle yields nothing afterwards"),
     "C13": dict(level="proof", canaries=[(CANARY, "canary:filter-yields-before-test")],
                 trusted_base=TB_COMMON + ["reference = contextlib._AsyncGeneratorContextManager of the installed CPython, extracted mechanically on demand (tools/extract_refs.py, drift-checked on every run) and rendered synchronous by fixed textual rules",
                                           "async-generator protocol A3: the generator's answers to anext/athrow/aclose range over {yield, stop, raise the same object, raise a new exception (same or other class), RuntimeError caused by the thrown exception}; a Stop(Async)Iteration never leaves a generator as such (PEP 479/525)"],
